@@ -4,6 +4,7 @@ cd /verif || exit 2
 rc=0
 for p in C01 C02 C03 C04 C05 C06 C07 C08 C09 C10 C11 C12 C13 C14 C15 C16 C17 C18; do
   out=$(bin/rapidlint -property $p -known known_findings.json -evidence /tmp/regress.$p.json 2>&1) || { echo "UNCHANGED TREE: $p alarms"; echo "$out" | grep -E "VIOLATED|UNDECIDED" | cut -c1-200; rc=1; }
+  out=$(bin/rapidlint -property $p -tier thorough -known known_findings.json -evidence /tmp/regress.$p.json 2>&1) || { echo "UNCHANGED TREE (thorough tier, all build configurations): $p alarms"; echo "$out" | grep -E "VIOLATED|UNDECIDED" | cut -c1-200; rc=1; }
   st=$(bin/rapidlint -property $p -selftest selftest -selftest-only -known known_findings.json 2>&1)
   echo "$st" | grep -v "failures=0$" | grep -q . && { echo "$st" | cut -c1-260; rc=1; } || echo "$st" | head -1
 done
